@@ -86,17 +86,18 @@ pub fn unkey(k: i64) -> f32 {
     }
 }
 
-/// Q24 fixed-point image round(v * 2^24), saturated to +-2^30 (|v| <= 64); NaN -> NAN_KEY
+/// Q24 fixed-point image round(v * 2^24), saturated to +-2^29 (|v| <= 32, so that the difference of
+/// two images always fits 32 bits); NaN -> NAN_KEY
 pub fn q24(v: f32) -> i64 {
     if v.is_nan() {
         return NAN_KEY;
     }
     let x = (v as f64) * 16777216.0;
-    let lim = (1u64 << 30) as f64;
+    let lim = (1u64 << 29) as f64;
     if x >= lim {
-        1 << 30
+        1 << 29
     } else if x <= -lim {
-        -(1 << 30)
+        -(1 << 29)
     } else {
         x.round() as i64
     }
